@@ -106,7 +106,11 @@ func usableAddr(ip net.IP) (netip.Addr, bool) {
 		return netip.Addr{}, false
 	}
 	addr = addr.Unmap()
-	if addr.IsLoopback() || isLocalIP(ip) {
+	// The unspecified address is not a place to send a query either: a
+	// dial to 0.0.0.0 or :: reaches this host (the dialer treats it as
+	// the local system), which is what the loopback test is there to
+	// prevent.
+	if addr.IsLoopback() || addr.IsUnspecified() || isLocalIP(ip) {
 		return netip.Addr{}, false
 	}
 	return addr, true
